@@ -18,7 +18,7 @@ int vg_errno;
 int *__errno_location(void) { return &vg_errno; }
 #ifdef VG_WRITE_FAULTS
 /* fault mode (groups wr_*_fault): up to VG_WRITE_FAULTS events over the whole operation, each one an EINTR, a short write
- * of any length >= 1, or a hard error (-1 with any errno other than EINTR) */
+ * (one byte accepted), or a hard error (-1 with any errno other than EINTR) */
 static unsigned vg_faults_left = VG_WRITE_FAULTS; static _Bool vg_hard;
 #endif
 ssize_t write(int fd, const void *buf, size_t count)
@@ -30,7 +30,7 @@ ssize_t write(int fd, const void *buf, size_t count)
 		unsigned kind = nondet_u8();
 		if (kind == 0) { vg_errno = EINTR; return -1; }
 		if (kind == 1) { vg_errno = nondet_int(); __CPROVER_assume(vg_errno != EINTR && vg_errno != 0); vg_hard = 1; return -1; }
-		size_t n = nondet_size(); __CPROVER_assume(n >= 1 && n <= count);
+		size_t n = 1;      /* short write: one byte accepted (any count below the request exposes a dependence on write()'s return value; arbitrary counts: groups c20_write_all / c20_write_block_frag) */
 		vg_writes++; vg_fpos += n; return (ssize_t)n;
 	}
 #endif
